@@ -98,12 +98,12 @@ static void build_ops() {
   add("e1 = e2 + e1", "operator+(e,e)", false, always, [](LE& x, LE& y) { x = y + x; }, [](RE& a, RE& b) { combine(a, b, 1, 1); });
   add("e1 = e1 - e2", "operator-(e,e)", false, always, [](LE& x, LE& y) { x = x - y; }, [](RE& a, RE& b) { combine(a, b, 1, -1); });
   add("e1 = e2 - e1", "operator-(e,e)", true, always, [](LE& x, LE& y) { x = y - x; }, [](RE& a, RE& b) { combine(a, b, -1, 1); });
-  add("e1 = e2", "operator=", true, always, [](LE& x, LE& y) { x = y; }, [](RE& a, RE& b) { a = b; });
+  add("e1 = e2", "operator=", false, always, [](LE& x, LE& y) { x = y; }, [](RE& a, RE& b) { a = b; });
   add("swap(e1,e2)", "swap", true, always, [](LE& x, LE& y) { using std::swap; swap(x, y); }, [](RE& a, RE& b) { std::swap(a, b); }, true);
   add("e1.m_swap(e2)", "m_swap", false, always, [](LE& x, LE& y) { x.m_swap(y); }, [](RE& a, RE& b) { std::swap(a, b); }, true);
   for (long n : {0L, 1L, 2L, -1L}) {
     add("add_mul_assign(e1," + zs(n) + ",e2)", "add_mul_assign(e,n,e)", n == 2, always, [n](LE& x, LE& y) { add_mul_assign(x, Z(n), y); }, [n](RE& a, RE& b) { if (n != 0) combine(a, b, 1, n); });
-    add("sub_mul_assign(e1," + zs(n) + ",e2)", "sub_mul_assign(e,n,e)", n == 1, always, [n](LE& x, LE& y) { sub_mul_assign(x, Z(n), y); }, [n](RE& a, RE& b) { if (n != 0) combine(a, b, 1, -n); });
+    add("sub_mul_assign(e1," + zs(n) + ",e2)", "sub_mul_assign(e,n,e)", false, always, [n](LE& x, LE& y) { sub_mul_assign(x, Z(n), y); }, [n](RE& a, RE& b) { if (n != 0) combine(a, b, 1, -n); });
   }
   static const long CPS[][2] = { {1, 1}, {1, -1}, {2, 1}, {2, -1}, {2, 3}, {-1, 2}, {0, 1}, {1, 0}, {0, 0}, {0, -2}, {3, 0} };
   for (int i = 0; i < 11; ++i) {
@@ -140,14 +140,14 @@ static void build_ops() {
   }
   // ---- expression / variable / number
   for (int v = 0; v < MAXDIM; ++v) {
-    add(string("e1 += ") + VN[v], "operator+=(e,v)", v == 0 || v == 2, always, [v](LE& x, LE&) { x += Var(v); }, [v](RE& a, RE&) { a.grow(v + 1); a.c[v + 1] += 1; });
+    add(string("e1 += ") + VN[v], "operator+=(e,v)", v == 0, always, [v](LE& x, LE&) { x += Var(v); }, [v](RE& a, RE&) { a.grow(v + 1); a.c[v + 1] += 1; });
     add(string("e1 -= ") + VN[v], "operator-=(e,v)", v == 1, always, [v](LE& x, LE&) { x -= Var(v); }, [v](RE& a, RE&) { a.grow(v + 1); a.c[v + 1] -= 1; });
     add(string("e1 = e1 + ") + VN[v], "operator+(e,v)", false, always, [v](LE& x, LE&) { x = x + Var(v); }, [v](RE& a, RE&) { a.grow(v + 1); a.c[v + 1] += 1; });
     add(string("e1 = ") + VN[v] + " + e1", "operator+(v,e)", false, always, [v](LE& x, LE&) { x = Var(v) + x; }, [v](RE& a, RE&) { a.grow(v + 1); a.c[v + 1] += 1; });
     add(string("e1 = e1 - ") + VN[v], "operator-(e,v)", false, always, [v](LE& x, LE&) { x = x - Var(v); }, [v](RE& a, RE&) { a.grow(v + 1); a.c[v + 1] -= 1; });
     add(string("e1 = ") + VN[v] + " - e1", "operator-(v,e)", v == 3, always, [v](LE& x, LE&) { x = Var(v) - x; }, [v](RE& a, RE&) { a.grow(v + 1); for (size_t i = 0; i < a.c.size(); ++i) a.c[i] = -a.c[i]; a.c[v + 1] += 1; });
     for (long n : {0L, 2L, -1L}) {
-      add("add_mul_assign(e1," + zs(n) + "," + VN[v] + ")", "add_mul_assign(e,n,v)", n == 2 && v == 1, always, [n, v](LE& x, LE&) { add_mul_assign(x, Z(n), Var(v)); }, [n, v](RE& a, RE&) { a.grow(v + 1); a.c[v + 1] += n; });
+      add("add_mul_assign(e1," + zs(n) + "," + VN[v] + ")", "add_mul_assign(e,n,v)", false, always, [n, v](LE& x, LE&) { add_mul_assign(x, Z(n), Var(v)); }, [n, v](RE& a, RE&) { a.grow(v + 1); a.c[v + 1] += n; });
       add("sub_mul_assign(e1," + zs(n) + "," + VN[v] + ")", "sub_mul_assign(e,n,v)", false, always, [n, v](LE& x, LE&) { sub_mul_assign(x, Z(n), Var(v)); }, [n, v](RE& a, RE&) { a.grow(v + 1); a.c[v + 1] -= n; });
     }
     for (long n : {0L, 5L, -1L})
@@ -179,7 +179,7 @@ static void build_ops() {
     add("e1 = " + zs(n) + " - e1", "operator-(n,e)", false, always, [n](LE& x, LE&) { x = Z(n) - x; }, [n](RE& a, RE&) { for (size_t i = 0; i < a.c.size(); ++i) a.c[i] = -a.c[i]; a.c[0] += n; });
   }
   for (long n : {0L, 2L, -1L, 3L}) {
-    add("e1 *= " + zs(n), "operator*=", n == 2 || n == 0, always, [n](LE& x, LE&) { x *= Z(n); }, [n](RE& a, RE&) { for (size_t i = 0; i < a.c.size(); ++i) a.c[i] *= n; });
+    add("e1 *= " + zs(n), "operator*=", n == 2, always, [n](LE& x, LE&) { x *= Z(n); }, [n](RE& a, RE&) { for (size_t i = 0; i < a.c.size(); ++i) a.c[i] *= n; });
     add("e1 = e1 * " + zs(n), "operator*(e,n)", false, always, [n](LE& x, LE&) { x = x * Z(n); }, [n](RE& a, RE&) { for (size_t i = 0; i < a.c.size(); ++i) a.c[i] *= n; });
     add("e1 = " + zs(n) + " * e1", "operator*(n,e)", false, always, [n](LE& x, LE&) { x = Z(n) * x; }, [n](RE& a, RE&) { for (size_t i = 0; i < a.c.size(); ++i) a.c[i] *= n; });
     add("e1.set_inhomogeneous_term(" + zs(n) + ")", "set_inhomogeneous_term", false, always, [n](LE& x, LE&) { x.set_inhomogeneous_term(Z(n)); }, [n](RE& a, RE&) { a.c[0] = n; });
@@ -194,7 +194,7 @@ static void build_ops() {
       [](RE& a, RE&) { for (size_t i = 1; i < a.c.size(); ++i) if (a.c[i] != 0) { if (a.c[i] < 0) for (size_t j = 0; j < a.c.size(); ++j) a.c[j] = -a.c[j]; break; } });
   // ---- dimensions
   for (int n = 0; n <= MAXDIM; ++n) {
-    add("e1.set_space_dimension(" + zs(n) + ")", "set_space_dimension", n == 2 || n == 3, always, [n](LE& x, LE&) { x.set_space_dimension(n); }, [n](RE& a, RE&) { a.c.resize(n + 1, Z(0)); });
+    add("e1.set_space_dimension(" + zs(n) + ")", "set_space_dimension", n == 2, always, [n](LE& x, LE&) { x.set_space_dimension(n); }, [n](RE& a, RE&) { a.c.resize(n + 1, Z(0)); });
     add("e1 = Linear_Expression(e1," + zs(n) + ")", "Linear_Expression(e,space_dim)", false, always, [n](LE& x, LE&) { LE t(x, (dim_t)n); x.m_swap(t); }, [n](RE& a, RE&) { a.c.resize(n + 1, Z(0)); });
     for (int r = 0; r < 2; ++r) {
       add("e1 = Linear_Expression(e1," + zs(n) + "," + (r ? "SPARSE" : "DENSE") + ")", "Linear_Expression(e,space_dim,r)", false, always, [n, r](LE& x, LE&) { LE t(x, (dim_t)n, r ? SPARSE : DENSE); x.m_swap(t); }, [n](RE& a, RE&) { a.c.resize(n + 1, Z(0)); });
